@@ -107,7 +107,19 @@ fn summaries(mut pp: ParsedPacket, p: &[u8], m: &wire::Msg) -> Result<(), String
 fn gen_c18(r: &mut Rng) -> Vec<u8> {
     let mut p: Vec<u8> = vec![0, 1, 0x80, 0, 0, 1, 0, 0, 0, 0, 0, 0, 1, b'q', 0, 0, 1, 0, 1];
     let mut an = 0u16;
-    match r.below(3) {
+    match r.below(4) {
+        3 => {
+            // a long run of one-byte labels hidden in the data of an unknown-type record, then m records whose owner name is a pointer to its start
+            // (a validator that forgets the 255-byte limit after a pointer walks the whole run once per record)
+            let run = 200 + r.below(3000) as usize; let m = 100 + r.below(900) as usize;
+            p.extend_from_slice(&[0, 0, 99, 0, 1, 0, 0, 0, 1]);
+            let l = 2 * run + 1; p.push((l >> 8) as u8); p.push(l as u8);
+            let start = p.len();
+            for _ in 0..run { p.push(1); p.push(b'a'); }
+            p.push(0);
+            an += 1;
+            if start < 0x3fff { for _ in 0..m { p.push(0xc0 | (start >> 8) as u8); p.push(start as u8); p.extend_from_slice(&[0, 99, 0, 1, 0, 0, 0, 1, 0, 0]); an += 1; } }
+        }
         0 => {
             // a chain of k back-pointers inside the data of an unknown-type record, then m records naming through it at depth d
             let (k, m) = if r.chance(1, 4) { (1500 + r.below(5000) as usize, 1500 + r.below(3000) as usize) } else { (20 + r.below(400) as usize, 50 + r.below(600) as usize) };
